@@ -21,6 +21,7 @@ EXPLANATION = (
     "under presence of the MCS key, mcs_solved next to the write-back, confident_cnt under confidence >= threshold, rb_applied is "
     "the length of the list handed to the rule imputer, rb_solved the length of the list written back; (Z4) every stored value is "
     "an int count so that merge_stats' key-wise + is the partition-independent sum."
+    " Z3 also decides the source of balanced_cnt: len(A) - len(B) - len(C) with B and C the single-assignment filter_data selections of A by the labels other than 'Balance'."
 )
 ASSUMPTIONS = ["that every row the imputer counted as solved survives validation is data-dependent and not decided"]
 
